@@ -87,7 +87,7 @@ def coq_case(tree, nsmap, missing, kind, d, order):
 
 
 def run(ctx):
-    ctx.build_repo(need_hook=False)
+    ctx.build_repo(need_hook=True)
     ok, failing, log = ctx.coq_props("C18")
     ctx.coverage["trusted_base"] = TRUSTED
     ctx.coverage["rule"] = ("directory trees synthesised for import graphs: ALL directed graphs (self-loops, every import-list order) on "
@@ -243,5 +243,5 @@ def replay(ctx, path):
     r = json.load(open(path))["replay"]
     tree = {int(k): v for k, v in r["imports"].items()}
     nsmap = {int(k): v for k, v in r["namespaces"].items()}
-    ctx.build_repo(need_hook=False)
+    ctx.build_repo(need_hook=True)
     print(run_case(ctx, 0, tree, nsmap, tuple(r.get("missing", ())))[:5])
